@@ -116,3 +116,16 @@ mod game_input_tests {
         assert_eq!(input.input.inp, 99);
     }
 }
+
+#[cfg(feature = "verif-hooks")]
+impl<I> PlayerInput<I>
+where
+    I: Copy + Clone + PartialEq + serde::Serialize,
+{
+    pub(crate) fn verif_digest(&self, out: &mut Vec<u8>) {
+        use crate::verif_hooks::Digest;
+        let Self { frame, input } = self;
+        frame.digest(out);
+        crate::verif_hooks::digest_serde(input, out);
+    }
+}
